@@ -5521,6 +5521,13 @@ class PyCdlib:
         else:
             sector_count = boot_load_size
 
+        # El Torito stores the sector count and the load segment in 16 bits.
+        # (With floppy and hard disk emulation the count recorded is always 1.)
+        if media_name == 'noemul' and (sector_count < 0 or sector_count > 0xffff):
+            raise pycdlibexception.PyCdlibInvalidInput('The number of sectors to load must be between 0 and 65535; pass boot_load_size for large boot files')
+        if boot_load_seg < 0 or boot_load_seg > 0xffff:
+            raise pycdlibexception.PyCdlibInvalidInput('The boot load segment must be between 0 and 65535')
+
         if boot_dirrecord.inode is None:
             raise pycdlibexception.PyCdlibInternalError('Tried to add an empty boot dirrecord inode to the El Torito boot catalog')
 
